@@ -81,6 +81,17 @@ theorem cropNode_wf {m m' : MeshVal α} (h : WF m) {attr : Option String} {insid
   | none => cases hm; exact h
   | some p => exact crop_wf h hm
 
+/-- the thin node wrappers of translate / rotate / scale: WF in ⇒ WF out (rotate: also without a mesh input) -/
+theorem thinNodes_wf {m m' : MeshVal (List s)} (h : WF m) (attr : Option String) :
+    (∀ t, m.translateNode attr t = some m' → WF m') ∧
+    (∀ q, MeshVal.rotateNode (some m) attr q = some m' → WF m') ∧
+    (∀ q, MeshVal.rotateNode (none : Option (MeshVal (List s))) attr q = some m' → WF m') ∧
+    (∀ o a, m.scaleNode attr o a = some m' → WF m') := by
+  refine ⟨fun t hm => MeshVal.mapAttr_wf h hm, fun q hm => MeshVal.mapAttr_wf h hm, ?_, fun o a hm => MeshVal.mapAttr_wf h hm⟩
+  intro q hm
+  cases hm
+  exact ⟨by simp [MeshVal.empty], by simp [MeshVal.empty], by simp [MeshVal.empty, Topology.Fits]⟩
+
 /-- `ScaleAttribute2D` -/
 theorem scale2D_wf {m m' : MeshVal (List s)} (h : WF m) {n : String} {o a : V2 s}
     (hm : m.scale2D n o a = some m') : WF m' := MeshVal.mapAttr_wf h hm
